@@ -109,3 +109,13 @@ def feed_ops(case, data, chunks=None, end=True, free=False):
     if free:
         ops.append("free")
     return ops
+
+
+def segments(lines):
+    """Split a trace at the `begin` marker printed before every start()."""
+    segs = []
+    for l in lines:
+        if l == "begin" or not segs:
+            segs.append([])
+        segs[-1].append(l)
+    return segs
